@@ -43,9 +43,10 @@ def run(tier, seed):
         else:
             ps, pcol = allp, onecol
             pq = [(p, q) for p in allp for q in cols]
+            pq3 = set(rnd.sample(pq, 24))
         ck.extra['partition_areas'] = {'grid': G, 'multi': ps, 'one_column': pcol, 'simplify': pq}
         src = open(os.path.join(ROOT, 'harness', 'c06_small.py')).read().replace('__G__', str(G))
-        T = 150 if quick else 600
+        T = 150 if quick else 400
         for p in ps:
             s = src.replace('__P__', repr(p)).replace('__Q__', '(1, 1)')
             h = Harness(ck, 'c06_small_P%d%d%d%d' % p, s); hs.append(h)
@@ -59,7 +60,7 @@ def run(tier, seed):
         for p, q in pq:
             s = src.replace('__P__', repr(p)).replace('__Q__', repr(q))
             h = Harness(ck, 'c06_small_S%d%d%d%d_%d%d' % (p + q), s); hs.append(h)
-            batch.add(h, T, only=['simplify_ok'] + ([] if quick else ['simplify3_ok']),
+            batch.add(h, T, only=['simplify_ok'] + ([] if quick or (p, q) not in pq3 else ['simplify3_ok']),
                       bounds='grid %dx%d, P=%r, second area on columns %r with symbolic rows, witness cell symbolic' % (G, G, p, q))
         batch.run()
     finally:
